@@ -249,6 +249,12 @@ def run_history(case, rec, mode):
             rng = np.random.default_rng(step[1])
             d = len(w.qd)
             v = rng.normal(size=d ** L) + 1j * rng.normal(size=d ** L)
+            if (step[1] // 7) % 2:
+                # weakly entangled vector (product state plus 1e-3 noise): a positive tolerance then truncates for certain
+                pv = np.ones(1, dtype=complex)
+                for _ in range(L):
+                    pv = np.kron(pv, rng.normal(size=d) + 1j * rng.normal(size=d))
+                v = pv + 1e-3 * np.linalg.norm(pv) / np.linalg.norm(v) * v
             if step[2] % 3 == 1:
                 v = v.real.copy()
             v0 = v.copy()
@@ -508,6 +514,7 @@ def history(draw, tier, mode):
         st.tuples(st.just('ham')),
         st.tuples(st.just('identity'), sel),
         st.tuples(st.just('from_vector'), st.integers(0, 10**6), sel),
+        st.tuples(st.just('from_vector'), st.integers(0, 10**6), st.sampled_from([2, 3, 6, 7])),
         st.tuples(st.sampled_from(['add', 'sub']), sel, sel, mut),
         st.tuples(st.sampled_from(['add', 'sub']), sel, sel, mut),
         st.tuples(st.just('apply'), sel, sel, mut),
